@@ -290,8 +290,32 @@ func c14R1(e *Engine) {
 		instrs(fn, func(in ssa.Instruction) {
 			switch x := in.(type) {
 			case *ssa.Call:
+				if staticCalleeName(x) == "builtin.copy" {
+					// copy(dst, src) on a slice of references duplicates the element headers only
+					dst, src := x.Call.Args[0], x.Call.Args[1]
+					if sl, ok := dst.Type().Underlying().(*types.Slice); ok && refElem(sl.Elem()) {
+						if k, _ := e.ownership(dst, fn, map[ssa.Value]bool{}); k == "fresh" {
+							k2, why := e.ownership(src, fn, map[ssa.Value]bool{})
+							if k2 != "fresh" {
+								why = "the elements of " + strings.TrimPrefix(why, "the ") + " (copy() duplicates the slice headers/pointers, not what they point to)"
+							}
+							sites = append(sites, site{"elements copied into a result slice", in, k2, why})
+						}
+					}
+					return
+				}
 				if staticCalleeName(x) != "builtin.append" {
 					return
+				}
+				// append(result, src...) with a whole slice of references spread in
+				if len(x.Call.Args) == 2 && len(variadicElems(x.Call.Args[1])) == 0 {
+					if sl, ok := x.Call.Args[1].Type().Underlying().(*types.Slice); ok && refElem(sl.Elem()) {
+						k2, why := e.ownership(x.Call.Args[1], fn, map[ssa.Value]bool{})
+						if k2 != "fresh" {
+							why = "the elements of " + strings.TrimPrefix(why, "the ") + " (append(dst, src...) copies the element headers only)"
+						}
+						sites = append(sites, site{"elements appended to a result slice", in, k2, why})
+					}
 				}
 				for _, el := range variadicElems(x.Call.Args[1]) {
 					if !refElem(el.Type()) {
